@@ -134,6 +134,7 @@ func TestVerifC08(t *testing.T) {
 		c08Scenario("pipeline-udp-seq3-stale-rst", tOpt{Kind: "pipeline-udp", Callers: 1, Seq: 3, Srv: staleRst}, d, true),
 		c08Scenario("reuse-c4+1-all-stale", tOpt{Kind: "reuse", Callers: 5, StageTwo: 1, Srv: srvOpt{CloseBudget: 4, CloseEveryAnswer: true, ResetOnWrite: true, SilentDeath: true}}, 1, false),
 		c08Scenario("pipeline-tcp-c3+1-all-stale", tOpt{Kind: "pipeline-tcp", Callers: 4, StageTwo: 1, MaxCq: 1, LazyQueue: 1, Srv: srvOpt{CloseBudget: 3, CloseEveryAnswer: true, ResetOnWrite: true, SilentDeath: true}}, 1, false),
+		c08Scenario("pipeline-tcp-c2-peerclosed-at-dial", tOpt{Kind: "pipeline-tcp", Callers: 2, Seq: 2, Srv: srvOpt{AnswerAll: true}, DialMenu: []int{0, 4}, CtxMode: []int{1, 1}}, d2, false),
 		c08Scenario("reuse-seq3-kill", tOpt{Kind: "reuse", Callers: 1, Seq: 3, Srv: kill}, d, false),
 		c08Scenario("reuse-c2-seq2-kill", tOpt{Kind: "reuse", Callers: 2, Seq: 2, Srv: kill}, d2, false),
 		c08Scenario("pipeline-tcp-c2-seq2-kill", tOpt{Kind: "pipeline-tcp", Callers: 2, Seq: 2, Srv: kill}, d2, false),
